@@ -58,6 +58,10 @@ func Atoms() []*Atom {
 	add(&Atom{ID: "leaf-idref", Class: "leaf", Top: "identity lbase;\nidentity lone { base lbase; }\nidentity ltwo { base lone; }\n",
 		Items: []*Item{leaf("idr", "type identityref { base lbase; }")}})
 	add(&Atom{ID: "leaf-idref-x", Class: "leaf", NeedExt: true, Items: []*Item{leaf("idrx", "type identityref { base x:xbase; }")}})
+	// two base identities with the SAME NAME in two modules (identity names are unique per module only), each the
+	// base of an identityref leaf: whatever identifies an identityref type by the bare name of its base confuses them
+	add(&Atom{ID: "leaf-idref-samename", Class: "leaf", NeedExt: true, Top: "identity xbase;\nidentity xown { base xbase; }\n",
+		Items: []*Item{leaf("idr-own", "type identityref { base xbase; }"), leaf("idr-ext", "type identityref { base x:xbase; }")}})
 	add(&Atom{ID: "leaf-union", Class: "leaf", Items: []*Item{leaf("un", `type union { type int8; type string { length "1..3"; } type enumeration { enum UA; enum UB; } }`)}})
 	add(&Atom{ID: "leaf-union-nested", Class: "leaf", Top: "identity nbase;\nidentity nid { base nbase; }\n",
 		Items: []*Item{leaf("unn", `type union { type union { type uint8; type boolean; } type decimal64 { fraction-digits 2; } type identityref { base nbase; } type binary; }`)}})
@@ -155,6 +159,9 @@ func Atoms() []*Atom {
 			return n, "module " + n + " {\n  yang-version 1.1;\n  namespace \"urn:" + n + "\";\n  prefix dd;\n  import " + main + " { prefix " + p + "; }\n  identity dup { base " + p + ":dupbase; }\n}\n"
 		}})
 	add(&Atom{ID: "col-listkey-struct", Class: "collision", Items: []*Item{list("mkl", []string{"ka", "kb"}, leaf("ka", tStr), leaf("kb", tU8), cont("Key", v("key-leaf")))}})
+	// a multi-key list next to a container whose struct name equals the default name of the list's key struct
+	// (<List>_Key): the key struct must fall back to another name whether or not the clashing struct is below the list
+	add(&Atom{ID: "col-listkey-sibling", Class: "collision", Items: []*Item{list("mks", []string{"ka", "kb"}, leaf("ka", tStr), leaf("kb", tU8)), cont("mks_Key", v("sk-leaf"))}})
 	add(&Atom{ID: "col-orderedmap-struct", Class: "collision", Items: []*Item{list("oll", []string{"ok"}, leaf("ok", tStr), cont("OrderedMap", v("om-leaf"))).with(func(i *Item) { i.Ordered = true })}})
 	add(&Atom{ID: "col-union-struct", Class: "collision", Items: []*Item{leaf("uu", "type union { type int8; type string; }"), cont("uu_Union", v("uu-leaf"))}})
 	add(&Atom{ID: "col-method-validate", Class: "collision", Items: []*Item{v("validate")}})
